@@ -603,3 +603,122 @@ def r13_11_setters_invalidate_derived_caches(ctx: Ctx) -> RuleResult:
                         else:
                             rr.fail(setter.qual, f"`{slot}` caches a value derived from `{p}` ({unparse(fills[0].value)[:60]}) but setting `{p}` does not reset it: a value read before the set is returned afterwards", ctx.loc(setter))
     return rr
+
+
+# ------------------------------------------------------------------------------------------- R13.12 packed cache words
+
+
+@rule("C13")
+def r13_12_packed_cache_words_are_unpacked(ctx: Ctx) -> RuleResult:
+    """The Hebrew year cache stores one word per year: (elapsed days << SHIFT) | flag bits.  A value taken from that cache - through
+    __get_or_populate_cache / __compute_cache_entry or directly from an entry's _start_of_year_days - is a packed word and may only
+    be shifted, masked, stored back into the cache or returned from one of the packed-word functions.  Using it as a day count
+    (which only happens on the path where the neighbouring year is already cached, i.e. depends on the order in which years were
+    first touched) gives a year length that is off by orders of magnitude and hence wrong month-length flags."""
+    rr = RuleResult("R13.12", "packed (days << SHIFT | flags) cache words of the Hebrew calculator are only shifted, masked, stored or passed on as packed words", min_instances=4)
+    M = ctx.M
+    c = M.cls("_HebrewScripturalCalculator")
+    packed_funcs = {"__get_or_populate_cache", "__compute_cache_entry"}
+    # a function produces a packed word if it returns (x << SHIFT) | ... or the result of another packed function
+    for g in c.all_defs:
+        if isinstance(g.node, ast.Lambda):
+            continue
+        for n in own_nodes(g.node):
+            if isinstance(n, ast.Return) and n.value is not None and any(isinstance(x, ast.BinOp) and isinstance(x.op, ast.LShift) and "SHIFT" in unparse(x.right) for x in ast.walk(n.value)):
+                packed_funcs.add(g.name.replace("_HebrewScripturalCalculator", ""))
+    packed_funcs = {p if p.startswith("__") else p for p in packed_funcs}
+
+    def is_source(e: ast.AST, packed_locals: set[str]) -> bool:
+        if isinstance(e, ast.Attribute) and e.attr == "_start_of_year_days":
+            return True
+        if isinstance(e, ast.Call) and isinstance(e.func, ast.Attribute) and any(e.func.attr.endswith(p) for p in packed_funcs):
+            return True
+        return isinstance(e, ast.Name) and isinstance(e.ctx, ast.Load) and e.id in packed_locals
+
+    for g in sorted(c.all_defs, key=lambda x: x.qual):
+        if isinstance(g.node, ast.Lambda):
+            continue
+        gname = g.name.replace("_HebrewScripturalCalculator", "")
+        packed_locals: set[str] = set()
+        for _ in range(2):
+            for n in own_nodes(g.node):
+                if isinstance(n, (ast.Assign, ast.AnnAssign)) and n.value is not None:
+                    t = n.targets[0] if isinstance(n, ast.Assign) else n.target
+                    if isinstance(t, ast.Name) and is_source(n.value, packed_locals):
+                        packed_locals.add(t.id)
+        for n in own_nodes(g.node):
+            if not is_source(n, packed_locals) or isinstance(getattr(n, "ctx", None), ast.Store):
+                continue
+            par = getattr(n, "_parent", None)
+            if isinstance(par, ast.Attribute):
+                continue  # receiver of a further attribute access
+            if isinstance(par, ast.Call) and par.func is n:
+                continue
+            rr.inst()
+            ok = False
+            why = ""
+            if isinstance(par, ast.BinOp) and isinstance(par.op, (ast.RShift, ast.BitAnd)) and par.left is n:
+                ok, why = True, "shifted / masked"
+            elif isinstance(par, ast.Return) and any(gname.endswith(p) for p in packed_funcs):
+                ok, why = True, "returned by a packed-word function"
+            elif isinstance(par, (ast.Assign, ast.AnnAssign)) and isinstance((par.targets[0] if isinstance(par, ast.Assign) else par.target), ast.Name):
+                ok, why = True, "kept in a local (its uses are checked)"
+            elif isinstance(par, ast.Call) and "CacheEntry" in unparse(par.func):
+                ok, why = True, "stored into the cache"
+            if ok:
+                rr.ok({"function": g.qual, "word": unparse(n)[:50], "use": why})
+            else:
+                rr.fail(g.qual, f"`{unparse(par)[:90] if par is not None else unparse(n)}` uses the packed cache word `{unparse(n)[:50]}` as a plain number (it is (days << SHIFT) | flags): reached only when that year is already cached", ctx.loc(g, n))
+    return rr
+
+
+# ------------------------------------------------------------------------------------------- R13.13 parse buckets are per parse
+
+
+@rule("C13")
+def r13_13_bucket_providers_build_fresh_buckets(ctx: Ctx) -> RuleResult:
+    """A parse bucket collects the fields of ONE parse; the stepped pattern asks its bucket provider for a new one at the start of
+    every parse.  The provider must construct the bucket in its own body (its return value is a constructor call): a provider that
+    hands out an object built once per pattern leaks the fields parsed from one text (e.g. a fraction of a second) into the next
+    text that does not mention them, and makes the shared pattern objects unsafe under concurrent parses."""
+    rr = RuleResult("R13.13", "every bucket provider handed to a stepped pattern builder constructs a fresh bucket on each call", min_instances=5)
+    M = ctx.M
+    init = M.find_method(M.cls("_SteppedPatternBuilder"), "__init__")
+    from ..kit import bind_args
+
+    for f in sorted(set(M.func_of_node.values()), key=lambda x: x.qual):
+        if isinstance(f.node, ast.Lambda) or not f.mod.rel.startswith("pyoda_time/text/"):
+            continue
+        for n in own_nodes(f.node):
+            if not (isinstance(n, ast.Call) and unparse(n.func).split("[")[0].endswith("_SteppedPatternBuilder")):
+                continue
+            b = bind_args(n, init) if init is not None else {}
+            prov = b.get("bucket_provider") or (n.args[1] if len(n.args) > 1 else None)
+            if prov is None:
+                continue
+            rr.inst()
+            rets: list[ast.expr] = []
+            if isinstance(prov, ast.Lambda):
+                rets = [prov.body]
+            elif isinstance(prov, ast.Name) and prov.id in f.nested:
+                g = f.nested[prov.id]
+                rets = [r.value for r in own_nodes(g.node) if isinstance(r, ast.Return) and r.value is not None]
+            elif isinstance(prov, ast.Name):
+                # a provider defined in an enclosing function
+                p = f.parent
+                while p is not None and prov.id not in p.nested:
+                    p = p.parent
+                if p is not None:
+                    rets = [r.value for r in own_nodes(p.nested[prov.id].node) if isinstance(r, ast.Return) and r.value is not None]
+            last = unparse(prov).split(".")[-1]
+            if not rets and isinstance(prov, (ast.Name, ast.Attribute)) and M.classes.get(last):
+                rr.ok({"builder in": f.qual, "provider": f"the class {last} itself (calling it constructs a bucket)"})
+                continue
+            if not rets:
+                rr.fail(f.qual, f"bucket provider `{unparse(prov)[:60]}` not resolved to a local function or lambda (not decided)", ctx.loc(f, n))
+            elif all(isinstance(r, ast.Call) for r in rets):
+                rr.ok({"builder in": f.qual, "provider returns": unparse(rets[0])[:60]})
+            else:
+                bad = next(r for r in rets if not isinstance(r, ast.Call))
+                rr.fail(f.qual, f"the bucket provider returns `{unparse(bad)[:60]}`, an object created outside the provider: every parse of the pattern shares it, so fields left by one text are seen by the next", ctx.loc(f, n))
+    return rr
